@@ -516,6 +516,8 @@ class Interp:
         if r is not NotImplemented:
             return r
         # sequences
+        if op == "Add" and isinstance(a, str) and isinstance(b, str):
+            return a + b      # concrete strings (names, keys)
         if op == "Add" and isinstance(a, tuple) and isinstance(b, tuple):
             return a + b
         if op == "Add" and isinstance(a, VRef) and isinstance(b, VRef):
@@ -675,6 +677,9 @@ class Interp:
             return self.wrap_bool(self.or_(self.and_(an, bn), self.and_(self.and_(self.not_(an), self.not_(bn)), inner)))
         if isinstance(a, ExtRef) and isinstance(b, ExtRef):
             return a == b
+        if (isinstance(a, VRef) and isinstance(b, (SymSet, SymSeq, SymMap))) or \
+                (isinstance(b, VRef) and isinstance(a, (SymSet, SymSeq, SymMap))):
+            return False     # a freshly built collection value is never an object that existed before
         raise Unsupported(f"`is` on {a!r}, {b!r}")
 
     def equal(self, a, b):
@@ -847,7 +852,11 @@ class Interp:
                 import math as _m
                 if self.ctx.mode == "ieee":
                     return S(z3.FPVal(getattr(_m, attr), FP), "fp")
-                if attr in ("nan", "inf"):
+                if attr == "nan":
+                    # floats are reals in this mode: a NaN can be stored and passed on, not computed with
+                    # (any arithmetic / comparison on the opaque value is outside the subset)
+                    return Opaque("nan")
+                if attr == "inf":
                     raise Unsupported(f"math.{attr} in real mode")
                 return float_literal(getattr(_m, attr))
             return ExtRef(base.name + "." + attr)
@@ -1054,6 +1063,18 @@ class Interp:
         if isinstance(f, FuncRef):
             return self.call_function(f, args, kwargs)
         if isinstance(f, ClassRef):
+            cur = self.engine.current
+            ext = getattr(cur, "externals", {}) if cur is not None else {}
+            if f.qual in ext:
+                # a class whose construction reaches outside (tasks, channels): replaced by a scripted factory -
+                # `call <ghost object>` calls that object with the same arguments
+                self.ctx.trusted.add(f"external:{f.qual}(...) is the contract's scripted factory `{ext[f.qual]}`")
+                efr = Frame(self.engine.contract_module(cur), dict(self.ctx.ghost))
+                efr.locals["args"] = tuple(args)
+                expr = ext[f.qual]
+                if expr.startswith("call "):
+                    return self.call(self.eval(self.engine.parse_clause(expr[5:]), efr), args, kwargs)
+                return self.eval(self.engine.parse_clause(expr), efr)
             return self.instantiate(f, args, kwargs)
         if isinstance(f, BoundBuiltin):
             return models.call_bound(self, f, args, kwargs)
